@@ -39,7 +39,9 @@ def _msgs():
     out = [(v, m) for (v, m) in MSG_PANEL if m in T.LIBS[v].MESSAGES]
     rnd = random.Random(5000 + SEED)
     # structures naming the pseudo-segments ANY / ANYHL7SEGMENT have no fixed shape
-    rest = [(v, m) for v in T.VERSIONS for m in T.MSGS[v] if (v, m) not in out and
+    # (names such as RTB_Knn / MFN_Znn are templates of the standard, 'nn' standing for digits: no message carries them;
+    #  the builder names a structure through MSH-9 = <type>^<event>^<structure>, so it needs a name of the form TYPE_EVENT: ACK and QRY are left out)
+    rest = [(v, m) for v in T.VERSIONS for m in T.MSGS[v] if (v, m) not in out and m == m.upper() and '_' in m and
             all(n in T.SEGS[v] and T.seg_children(v, n) is not None for n in B.structure_names(T.LIBS[v].MESSAGES[m]))]
     out += rnd.sample(rest, 160 if THOROUGH else 24)
     return out
